@@ -190,7 +190,7 @@ Proof.
   - destruct (push_checks_spec _ _ _ _ _ _ _ Ep) as (k & A & B & Cc & D & F & G).
     fold (check_frame ds) in H. destruct resps as [|ans more]; [discriminate|].
     destruct (t_limit c <=? S used)%nat eqn:EL; [discriminate|].
-    destruct (frame_ok (t_desired c) ans) eqn:EF; [|discriminate].
+    destruct (frame_ok (t_desired c) ans) eqn:EF; [|destruct (frame_error (t_desired c) ans); discriminate].
     destruct (is_state f c rs more (S used)) as [[[r0 rs0] fs0] u0] eqn:EI.
     inversion H; subst r0 rs0 fs u0; clear H.
     destruct (IH _ _ _ _ _ _ _ R EI) as (answers & A1 & A2 & A3 & A4 & A5 & A6).
@@ -212,7 +212,8 @@ Proof.
     destruct cnt as [|cnt]; [inversion H; subst; cbn; lia|].
     destruct resps as [|ans more]; [inversion H; subst; cbn; lia|].
     destruct (t_limit c <=? S used)%nat; [inversion H; subst; cbn; lia|].
-    destruct (frame_ok (t_desired c) ans); [|inversion H; subst; cbn; lia].
+    destruct (frame_ok (t_desired c) ans);
+      [|destruct (frame_error (t_desired c) ans); inversion H; subst; cbn; lia].
     destruct (is_state f c rs more (S used)) as [[[r0 rs0] fs0] u0] eqn:EI.
     inversion H; subst. rewrite (IH _ _ _ _ _ _ _ _ EI). cbn [length]. lia.
 Qed.
@@ -229,7 +230,7 @@ Proof.
   destruct (frame_ok (t_desired c) ans).
   - destruct (is_state f c rs more (S used)) as [[[r0 rs0] fs0] u0] eqn:EI.
     inversion H; subst. destruct (IH _ _ _ _ _ _ _ EI). lia.
-  - inversion H; subst. lia.
+  - destruct (frame_error (t_desired c) ans); [discriminate|]. inversion H; subst. lia.
 Qed.
 
 (* enough fuel: one level per member plus one *)
@@ -242,11 +243,61 @@ Proof.
   destruct (push_checks_spec _ _ _ _ _ _ _ Ep) as (k & A & B & Cc & D & F & G).
   destruct resps as [|ans more]; [cbn; discriminate|].
   destruct (t_limit c <=? S used)%nat; [cbn; discriminate|].
-  destruct (frame_ok (t_desired c) ans); [|cbn; discriminate].
+  destruct (frame_ok (t_desired c) ans); [|destruct (frame_error (t_desired c) ans); cbn; discriminate].
   destruct (is_state f c rs more (S used)) as [[[r0 rs0] fs0] u0] eqn:EI. cbn [fst].
   assert (X : fst (fst (fst (is_state f c rs more (S used)))) <> Hang).
   { apply IH; [exact R|]. subst rs. rewrite skipn_length. lia. }
   rewrite EI in X. exact X.
+Qed.
+
+(* what "the frame is fine" means, and what the error verdict means *)
+Lemma frame_ok_spec st ans : frame_ok st ans = true <->
+  Forall (fun a => al_error (fst a) = false /\ al_state (fst a) = st) ans.
+Proof.
+  unfold frame_ok. rewrite forallb_forall, Forall_forall. unfold ans_ok.
+  split; intros H a Ha; specialize (H a Ha).
+  - apply andb_true_iff in H as [H1 H2]. apply negb_true_iff in H1. apply N.eqb_eq in H2. auto.
+  - destruct H as [H1 H2]. rewrite H1, H2, N.eqb_refl. reflexivity.
+Qed.
+
+Lemma frame_error_spec st ans : frame_error st ans = true <->
+  exists pre a post, ans = pre ++ a :: post /\ frame_ok st pre = true /\ al_error (fst a) = true.
+Proof.
+  induction ans as [|x r IH]; cbn [frame_error].
+  - split; [discriminate|]. intros (pre & a & post & H & _). destruct pre; discriminate.
+  - destruct (al_error (fst x)) eqn:Ex.
+    + split; [|reflexivity]. intros _. exists [], x, r. repeat split; auto.
+    + destruct (al_state (fst x) =? st) eqn:Es.
+      * rewrite IH. split; intros (pre & a & post & H1 & H2 & H3).
+        -- exists (x :: pre), a, post. subst r. repeat split; auto.
+           unfold frame_ok in *. cbn [forallb]. unfold ans_ok at 1. rewrite Ex, Es. exact H2.
+        -- destruct pre as [|y pre]; cbn [app] in H1; injection H1 as -> ->; [congruence|].
+           exists pre, a, post. repeat split; auto.
+           unfold frame_ok in H2. cbn [forallb] in H2. apply andb_true_iff in H2 as [_ H2]. exact H2.
+      * split; [discriminate|]. intros (pre & a & post & H1 & H2 & H3).
+        destruct pre as [|y pre]; cbn [app] in H1; injection H1 as -> ->; [congruence|].
+        unfold frame_ok in H2. cbn [forallb] in H2. apply andb_true_iff in H2 as [H2 _].
+        unfold ans_ok in H2. rewrite Es, andb_false_r in H2. discriminate.
+Qed.
+
+Lemma frame_error_not_ok st ans : frame_error st ans = true -> frame_ok st ans = false.
+Proof.
+  induction ans as [|x r IH]; cbn [frame_error]; [discriminate|]. unfold frame_ok. cbn [forallb]. unfold ans_ok at 1.
+  destruct (al_error (fst x)); [reflexivity|]. destruct (al_state (fst x) =? st); [|reflexivity].
+  intros H. cbn [negb andb]. apply IH. exact H.
+Qed.
+
+(* a status answer with the error indication, seen before the timeout and before any answer
+   naming another state, ends the round - and with it the transition - with Err(StateTransition) *)
+Theorem is_state_error f c subs ans more used r rest fs u :
+  is_state (S f) c subs (ans :: more) used = (r, rest, fs, u) ->
+  fs <> [] -> (S used < t_limit c)%nat -> frame_error (t_desired c) ans = true ->
+  r = Err TStateTransition.
+Proof.
+  intros H NE L E. cbn [is_state] in H.
+  destruct (push_checks (t_room c) 0 subs 0) as [[ds rs] cnt].
+  destruct cnt as [|cnt]; [inversion H; subst; congruence|].
+  apply Nat.leb_gt in L. rewrite L, (frame_error_not_ok _ _ E), E in H. inversion H. reflexivity.
 Qed.
 
 (* success of the wait = some is_state round said yes *)
@@ -283,7 +334,7 @@ Proof.
       destruct (frame_ok (t_desired c) ans).
       - destruct (is_state fu c rs1 more (S used)) as [[[r0 rs0] fs1] u0] eqn:EI.
         inversion H; subst. destruct (IHf _ _ _ _ _ _ EI) as (cs & ->). exists (ans :: cs). reflexivity.
-      - inversion H; subst. exists [ans]. reflexivity. }
+      - destruct (frame_error (t_desired c) ans); [discriminate|]. inversion H; subst. exists [ans]. reflexivity. }
     destruct Cn as (consumed & ->).
     exists (consumed ++ before), answers, after, (fs0 ++ fsb), fsl. subst rs fs'.
     rewrite <- !app_assoc. repeat split; auto.
